@@ -291,6 +291,15 @@ def make_shards(cases, target):
     return shards
 
 
+def _describe(shard):
+    lo, hi, plo, phi = shard
+    c = _CASES[lo]
+    return "%d case(s) %s %s" % (hi - lo, (plo, phi), {k: (v if not isinstance(v, (list, tuple)) or len(v) < 6 else "[%d]" % len(v)) for k, v in c.items()})
+
+
+worker.describe = _describe
+
+
 _BRUTE = [300]
 
 
